@@ -34,6 +34,8 @@ fn frame_class(w: u16) -> &'static str {
 // =================================================================== C05
 
 pub fn run_c05(rep: &mut Report) {
+    frame_static_counter_wraps(rep, "C05", false);
+    frame_static_counter_wraps(rep, "C05", true);
     let mut accepted = 0u64;
     let mut rejected: BTreeMap<&'static str, u64> = BTreeMap::new();
     let mut distinct: BTreeSet<(u16, String)> = BTreeSet::new();
@@ -578,7 +580,66 @@ fn run_2_32_bits() -> (u64, Option<(String, String)>) {
     (total_frames * 11, v)
 }
 
+/// Counters in static memory behind the frame decoder (hidden.rs), driven across their wrap-arounds while frames go in
+/// bit by bit (`serial`, C06's oracle: the crate's own whole-word decoding) or word by word (C05's oracle: the frame rule).
+fn frame_static_counter_wraps(rep: &mut Report, prop: &str, serial: bool) {
+    let frames: [u16; 6] = [encode_frame(0x1C), encode_frame(0xF0) ^ 0x200, 0x7FF, encode_frame(0x5A), 0x000, encode_frame(0xE0) ^ 0x001];
+    let mut d = crate::scan::fresh_ps2();
+    let (mut fi, mut bi) = (0usize, 0usize);
+    let prop = prop.to_string();
+    let mut step = || -> Option<(String, String)> {
+        let w = frames[fi];
+        if !serial {
+            fi = (fi + 1) % frames.len();
+            let want = frame_expect(w);
+            let got = guarded(|| crate::scan::fresh_ps2().add_word(w));
+            let gs = match &got {
+                Ok(g) => frame_res_str(g),
+                Err(p) => format!("PANIC({})", panic_sig(p)),
+            };
+            if got.as_ref().ok() != Some(&want) {
+                return Some((
+                    format!("{}|static-counter-wrap|add_word|class={}|want={}|got={}", prop, frame_class(w), frame_res_str(&want), gs),
+                    format!("Ps2Decoder::add_word(0x{:03X}) returned {}; the frame rule gives {}", w, gs, frame_res_str(&want)),
+                ));
+            }
+            return None;
+        }
+        let bit = (w >> bi) & 1 == 1;
+        // C05 judges by the frame rule, C06 by the crate's own whole-word decoding of the same bits
+        let want: BitRes = if bi < 10 {
+            Ok(None)
+        } else if prop == "C05" {
+            frame_expect(w).map(Some)
+        } else {
+            whole_word(w).map(Some)
+        };
+        let got = guarded(|| d.add_bit(bit));
+        let at = bi;
+        bi += 1;
+        if bi == 11 {
+            bi = 0;
+            fi = (fi + 1) % frames.len();
+        }
+        let gs = match &got {
+            Ok(g) => bitres_str(g),
+            Err(p) => format!("PANIC({})", panic_sig(p)),
+        };
+        if got.as_ref().ok() != Some(&want) {
+            d = crate::scan::fresh_ps2();
+            bi = 0;
+            return Some((
+                format!("{}|static-counter-wrap|add_bit|bit#{}|want={}|got={}", prop, at + 1, bitres_str(&want), gs),
+                format!("frame {} through add_bit: bit {} returned {}; expected {}", word_bits(w), at + 1, gs, bitres_str(&want)),
+            ));
+        }
+        None
+    };
+    crate::hidden::counter_wraps(rep, if serial { "Ps2Decoder::add_bit" } else { "Ps2Decoder::add_word" }, &mut step, 800);
+}
+
 pub fn run_c06(rep: &mut Report) {
+    frame_static_counter_wraps(rep, "C06", true);
     let long_run = std::thread::spawn(run_2_32_bits);
     let fresh_dbg = format!("{:?}", crate::scan::fresh_ps2());
     let mut out = Out::default();
